@@ -17,7 +17,17 @@ Case layout (a case = a block of pipelines, pure function of (seed, n)):
                  (K = 3 quick, 4 thorough) — complete;
   MAPK blocks  : the preset with arbitrary inputs / tier factors / structural perturbations;
   random blocks: 1..5 stages from an extended behaviour alphabet (signal-dependent and stateful gates,
-                 identity/None processors, None recoveries), each cascade run twice.
+                 identity/None processors, None recoveries), each cascade run twice;
+  overlap blocks: ONE long-lived cascade object per configuration whose runs OVERLAP: (a) re-entrant - a checkpoint /
+                 processor / error handler / on_stage_complete callback of a run calls run() on the same object (nesting
+                 depth <= 3); (b) 2-3 real threads each calling run() under the controlled scheduler of rv.sched
+                 (LINE hook on the Cascade class; policies: hand-over only at callback entries, random statement-level,
+                 k forced statement-level switches; plus, for the first configuration(s) of every case, a systematic
+                 sweep that places a whole second run at EVERY statement boundary of a first run). The stages are shared, so behaviours are scripted per RUN (looked up
+                 through a thread-local run stack); every run has its own unique signals and its own invocation log,
+                 and every returned CascadeResult is judged against that run's own log by the same `judge`
+                 (mechanism keys get the suffix `:overlapping-runs`). These cases are the last block so that the
+                 scheduler's LINE hook is installed only after the single-run layers of a shard have finished.
 """
 import sys
 import threading
@@ -28,10 +38,13 @@ PID = "C19"
 LEVEL = "fault_enumeration"
 TECHNIQUE = ("runtime monitoring: scripted logging stubs for every checkpoint/processor/error handler of the real "
              "Cascade (signal identity recorded), invocation log + CascadeResult judged against fail-closed rules; "
-             "behaviour product enumerated by mixed-radix decoding")
+             "behaviour product enumerated by mixed-radix decoding; overlapping runs of one cascade object driven "
+             "re-entrantly from callbacks and from real threads under a line-granularity controlled scheduler, each "
+             "run judged against its own per-run log")
 RULE = ("sweep = every pipeline of 1..K stages (K=3 quick, K=4 thorough) over 48 behaviours per stage "
         "(checkpoint absent/pass/reject/raise x processor pass/raise x handler absent/recover/raise x required T/F) "
         "x halt_on_failure T/F, complete; 5-stage (and in quick 4-stage) pipelines are sampled from an extended alphabet; "
+        "overlap layer: sampled 1..5-stage shared cascades x per-run scripts x (nesting site | seeded schedule); "
         "non-trivial = a fault was injected and reached (a gate rejected or raised, or a processor raised); "
         "distinct = (stage count, halt setting, per-stage outcome vector, reported success)")
 ASSUMPTIONS = [
@@ -39,6 +52,10 @@ ASSUMPTIONS = [
     "checkpoints return real booleans (MAPK preset lambdas: truthiness)",
     "a stage counts as completed when its processor returned or its own error handler returned a recovery value",
     "amplification factors are finite and >= 0; run_parallel is outside the statement",
+    "'a run' is one invocation of Cascade.run: when runs of one Cascade object overlap (re-entrant call from a callback, or "
+    "another thread), each returned result is judged against the callbacks invoked for that invocation only",
+    "thread interleavings are explored at statement granularity of the Cascade class plus callback entries (rv.sched); "
+    "preemption inside a single statement is not explored",
 ]
 
 NB = 48                      # behaviours per stage in the complete product
@@ -158,9 +175,11 @@ def decode(idx, K):
 def tier_params(tier):
     if tier == "quick":
         return {"K": 3, "G": 96, "mapk_cases": 40, "mapk_per": 50, "rand_cases": 7000, "rand_per": 96,
-                "ov_cases": 320, "ov_per": 10, "ov_nested": 6, "ov_sched": 12}
+                "ov_cases": 320, "ov_per": 10, "ov_nested": 6, "ov_sched": 8,
+                "ov_sweep_cfgs": 1, "ov_sweep_max": 120}
     return {"K": 4, "G": 1024, "mapk_cases": 280, "mapk_per": 100, "rand_cases": 20000, "rand_per": 512,
-            "ov_cases": 1400, "ov_per": 20, "ov_nested": 8, "ov_sched": 16}
+            "ov_cases": 1000, "ov_per": 20, "ov_nested": 8, "ov_sched": 12,
+            "ov_sweep_cfgs": 3, "ov_sweep_max": 250}
 
 
 def n_sweep_cases(tp):
@@ -191,6 +210,10 @@ def plan(tier):
             "amplification_checked": 100000, "amplification_clamped": 5000,
             "mapk_runs": 1500, "mapk_success": 300, "mapk_gate_rejected": 100, "mapk_gate_raised": 100,
             "five_stage_pipelines": 5000,
+            # overlapping runs of one cascade object (re-entrant + threads under the scheduler)
+            "overlap_runs_judged": 10000, "overlap_thread_schedules": 3000, "overlap_thread_schedules_interleaved": 2000,
+            "overlap_reentrant_groups_nested_run_started": 1000, "overlap_groups_complete_run_beside_failed_run": 1000,
+            "overlap_statement_sweep_schedules": 2500, "overlap_statement_sweeps_complete": 30,
         },
     }
 
@@ -840,11 +863,13 @@ class CallbackPolicy:
 class SwitchAtPolicy:
     """Non-preemptive except at the given statement steps, where another runnable thread (seeded) continues."""
 
-    def __init__(self, rng, steps):
-        self.rng, self.steps = rng, set(steps)
+    def __init__(self, rng, steps, first=None):
+        self.rng, self.steps, self.first = rng, set(steps), first
 
     def choose(self, step, current, runnable):
         if current is None or current not in runnable:
+            if step == 0 and self.first in runnable:
+                return self.first
             return self.rng.choice(runnable)
         if step in self.steps:
             others = [t for t in runnable if t != current]
@@ -984,6 +1009,33 @@ def case_overlap(ctx, n, tp):
                 bump("overlap_reentrant_groups_nested_run_started")
             judge_group(g, "re-entrant", "single thread", overlapped=top.fired)
         # -- threads: 2-3 threads call run() on the same object under the controlled scheduler ----------------
+        def schedule(tops, policy, label, stub_yield):
+            """one schedule of the threads `tops` on the shared cascade; returns the scheduler, or None to stop using it"""
+            g = Group(casc, tops, stub_yield)
+            sc = sched.Scheduler(policy, watchdog_s=30.0)
+            per_thread = [0] * len(tops)
+            sc.hooks.append(lambda s_, me, fn, line: per_thread.__setitem__(me, per_thread[me] + 1))
+            sc.steps_of = per_thread
+
+            def body(r):
+                _TLS.stack = []
+                _ov_launch(g, r)
+            sc.run([(lambda r=r: body(r)) for r in tops])
+            bump("overlap_thread_schedules")
+            if sc.stuck:
+                ctx.inconclusive("an overlapping-runs schedule hit the wall-clock watchdog (not a verdict)")
+                return None
+            if sc.deadlock or any(e is not None for e in sc.errors):
+                bump("overlap_schedule_deadlock_or_error_unjudged")
+                return None
+            ov = _overlapped(g.order, tops)
+            if ov:
+                bump("overlap_thread_schedules_interleaved")
+            if sc.preemptions:
+                bump("overlap_thread_schedules_preempted")
+            judge_group(g, "threads", label, sc, overlapped=ov)
+            return sc
+
         nsteps = 40 * k * 2
         for sidx in range(0 if dead else tp["ov_sched"]):
             nthreads = 2 if rng.random() < 0.8 else 3
@@ -998,27 +1050,30 @@ def case_overlap(ctx, n, tp):
             else:
                 steps = sorted(rng.randrange(1, max(2, nsteps)) for _ in range(rng.choice([1, 2, 2, 3, 4])))
                 policy, label, stub_yield = SwitchAtPolicy(rng, steps), "switch at statements %r" % (steps,), False
-            g = Group(casc, tops, stub_yield)
-            sc = sched.Scheduler(policy, watchdog_s=30.0)
-
-            def body(r, g=g):
-                _TLS.stack = []
-                _ov_launch(g, r)
-            sc.run([(lambda r=r: body(r)) for r in tops])
+            sc = schedule(tops, policy, label, stub_yield)
+            if sc is None:
+                dead = True
+                break
             nsteps = max(sc.step, 2)
-            bump("overlap_thread_schedules")
-            if sc.stuck:
-                ctx.inconclusive("an overlapping-runs schedule hit the wall-clock watchdog (not a verdict)")
-                break
-            if sc.deadlock or any(e is not None for e in sc.errors):
-                bump("overlap_schedule_deadlock_or_error_unjudged")
-                break
-            ov = _overlapped(g.order, tops)
-            if ov:
-                bump("overlap_thread_schedules_interleaved")
-            if sc.preemptions:
-                bump("overlap_thread_schedules_preempted")
-            judge_group(g, "threads", label, sc, overlapped=ov)
+        # -- systematic: a whole second run placed at EVERY statement boundary of a first run (first configuration of a case)
+        if cfg < tp["ov_sweep_cfgs"] and not dead:
+            sa, sb = _ov_script(rng, k, base, 0.35), _ov_script(rng, k, base, 0.35)
+
+            def pair():
+                serial[0] += 2
+                return [Run("r%d" % (serial[0] - 1), sa), Run("r%d" % serial[0], sb)]
+            sc = schedule(pair(), SwitchAtPolicy(rng, (), first=0), "thread 0 then thread 1, no switch", False)
+            n_a = sc.steps_of[0] if sc is not None else 0
+            points = list(range(1, n_a + 1))
+            if len(points) > tp["ov_sweep_max"]:
+                points = sorted(rng.sample(points, tp["ov_sweep_max"]))
+            else:
+                bump("overlap_statement_sweeps_complete")
+            for st in points:
+                if schedule(pair(), SwitchAtPolicy(rng, (st,), first=0),
+                            "thread 1 runs entirely after statement step %d of thread 0" % st, False) is None:
+                    break
+                bump("overlap_statement_sweep_schedules")
         bump("overlap_cascades")
     flush(ctx, acc)
 
